@@ -1098,6 +1098,18 @@ fn gen_c03(rng: &mut Rng, r: u64) -> Value {
     }
     let mut v = victim_write(rng, keyed, 0, len, 0);
     v["mode"] = json!(f.1);
+    // declared sizes that do not match the data, on both sides of the mmap threshold: the commit is rejected,
+    // but whatever reaches the content area must still be exactly the data of its address
+    if v["entry"] == "opts" && rng.chance(1, 3) {
+        let s = match rng.below(5) {
+            0 => len + 1,
+            1 => len.saturating_sub(1),
+            2 => len + (1 << 20) + 3,
+            3 => len * 2 + 5,
+            _ => (1 << 20) + 1,
+        };
+        v["opts"]["size"] = json!(s);
+    }
     let mut post = Vec::new();
     for fl in PURE {
         post.push(json!({"k":"audit","bin":fl.0,"mode":fl.1,"what":["metadata","read","read_hash","exists"]}));
@@ -1288,10 +1300,49 @@ fn gen_c07(rng: &mut Rng, _r: u64, tier: &str) -> Value {
            "plan":{"kind":"single","faults":[],"schedule":{"policy":policy,"seed":rng.next_u64() >> 1,"depth":rng.range(1,3),"horizon":rng.range(10,60)}},"oracle":"serial"})
 }
 
-pub fn selftest(workers: &Path) -> Result<String, String> {
-    // the register-patching self-test: inject EIO into a known write and shorten another; observe both in the worker
-    let _ = workers;
-    Ok("ok".into())
+/// Start-up self-test of the seams: an injected EIO on a known data write must surface in the worker as an
+/// I/O error with raw OS error 5, and a kill before the publishing rename must leave no content file.
+pub fn selftest(workers: &Path, scratch: &Path) -> Result<String, String> {
+    let mut ctx = Ctx::new(workers, scratch);
+    let sc = json!({
+        "check":"C13","tier":"quick","keys":["selftest"],"vals":[{"seed":99,"len":64}],"clock0":"1700000000000",
+        "prelude":[],"clients":[{"bin":"sync","steps":[{"k":"api","op":"write","entry":"write","key":0,"val":0,"mode":"sync"}]}],
+        "post":[],"plan":{"kind":"single","faults":[],"schedule":{"policy":"first"}},"oracle":"fault"
+    });
+    let census = run_plan(&mut ctx, &sc, &json!({"faults":[],"schedule":{"policy":"first"}}), "st0");
+    if let Some(h) = census.harness {
+        return Err(format!("census failed: {h}"));
+    }
+    let w = census.events.iter().find(|e| e.sys.data_write && e.sys.path.as_deref().map(|p| p.contains("/tmp/.tmp")).unwrap_or(false)).ok_or("no data write found in the census of write_sync")?;
+    let rn = census.events.iter().find(|e| e.sys.name.starts_with("rename")).ok_or("no rename found in the census")?;
+    // errno
+    let plan = json!({"faults":[{"client":0,"at":w.ord,"action":{"a":"errno","e":5}}],"schedule":{"policy":"first"}});
+    let ex = exec_traced(&mut ctx, &sc, &plan, "st1");
+    let r = ex.sub.results.get(0).and_then(|v| v.get(0)).cloned().flatten();
+    let ok_errno = matches!(&r, Some(v) if v["r"] == "err" && (v["os"] == 5 || v["msg"].as_str().map(|m| m.contains("os error 5")).unwrap_or(false)));
+    let _ = finish_exec(ex, &sc);
+    if !ok_errno {
+        return Err(format!("injected EIO did not surface as os error 5: {:?}", r));
+    }
+    // short write
+    let plan = json!({"faults":[{"client":0,"at":w.ord,"action":{"a":"short","k":10}}],"schedule":{"policy":"first"}});
+    let ex = exec_traced(&mut ctx, &sc, &plan, "st2");
+    let short_seen = ex.sub.events.iter().any(|e| e.ord == w.ord && e.ret == 10);
+    let _ = finish_exec(ex, &sc);
+    if !short_seen {
+        return Err("shortened write did not return the shortened count".into());
+    }
+    // kill before the rename
+    let plan = json!({"faults":[{"client":0,"at":rn.ord,"action":{"a":"kill_entry"}}],"schedule":{"policy":"first"}});
+    let ex = exec_traced(&mut ctx, &sc, &plan, "st3");
+    let d = disk::scan(&ex.it.cache);
+    let no_result = ex.sub.results.get(0).and_then(|v| v.get(0)).cloned().flatten().is_none();
+    let clean = d.content.is_empty() && d.tmp.len() == 1;
+    let _ = finish_exec(ex, &sc);
+    if !no_result || !clean {
+        return Err(format!("kill before rename: result present={} content files={} tmp files={}", !no_result, d.content.len(), d.tmp.len()));
+    }
+    Ok("errno, short write and kill injection verified".into())
 }
 
 // ------------------------------------------------------------------------------------------ sysim families used by opsim checks
